@@ -141,13 +141,14 @@ def d2(chk, prog):
     tb2.done("do_reference_flat does not store the flat profile / its depth on every bin")
 
 
-def pool_arrays(n_files, style="chr", gene_differs=None, coord_differs=None, with_depth=True):
+def pool_arrays(n_files, style="chr", gene_differs=None, coord_differs=None, with_depth=True, off_by_one=None):
     """the .cnn tables of a pool: same bins (autosome, X, Y), symbolic per-file log2 / depth"""
     out = {}
     for k in range(n_files):
         rows = []
         for i, c in enumerate(("auto", "x", "y")):
-            r = dict(chromosome=chrom(c, style), start=1000 * i, end=1000 * i + 500, gene=f"g{i}", log2=Term.sym(f"L{k}_{c}"))
+            # coordinates of real magnitude (150 Mb): a one-base difference is 7e-9 of the value
+            r = dict(chromosome=chrom(c, style), start=150_000_000 + 1000 * i, end=150_000_000 + 1000 * i + 500, gene=f"g{i}", log2=Term.sym(f"L{k}_{c}"))
             if with_depth:
                 r["depth"] = Term.sym(f"D{k}_{c}", 0, INF)
             rows.append(r)
@@ -155,6 +156,8 @@ def pool_arrays(n_files, style="chr", gene_differs=None, coord_differs=None, wit
             rows[1]["gene"] = "OTHER"
         if coord_differs == k:
             rows[2]["end"] = 999999
+        if off_by_one == k:
+            rows[0]["start"] += 1             # e.g. a 1-based start in one file
         out[k] = make_ga("CopyNumArray", rows, {"_classes": ["auto", "x", "y"], "sample_id": f"S{k}"}, exact=True)
     return out
 
@@ -183,7 +186,8 @@ def d3(chk, prog):
     fi = prog.fn(f"{REF}.load_sample_block")
     tb = Table(chk, "must-pass-through", "load_sample_block: a file with other bins / other gene names is refused", fi.loc(), fi.qn)
     names = ["/d/b.targetcoverage.cnn", "/d/a.targetcoverage.cnn", "/d/c.targetcoverage.cnn"]
-    for label, kw in (("same bins", {}), ("third file: one end differs", dict(coord_differs=2)), ("second file: one gene name differs", dict(gene_differs=1)), ("first file differs from the rest", dict(coord_differs=0))):
+    for label, kw in (("same bins", {}), ("third file: one end differs", dict(coord_differs=2)), ("second file: one gene name differs", dict(gene_differs=1)), ("first file differs from the rest", dict(coord_differs=0)),
+                      ("third file: one start shifted by one base", dict(off_by_one=2))):
         W.reset()
         arrs = pool_arrays(3, **kw)
         by_name = {names[k]: arrs[k] for k in range(3)}
@@ -558,6 +562,9 @@ def run(chk):
     d7(chk, prog)
     d8(chk, prog)
     d9(chk, prog)
+    chk.clause("D10", "each sample is centred on its covered autosomal bins before pooling: center_all (C15-D1 rule)")
+    from . import C15
+    C15.d1(chk, prog)
 
 
 _R = "cnvlib/reference.py"
